@@ -53,7 +53,15 @@ type sentenceResult struct {
 
 // concatInterp evaluates every child and concatenates what it gets; bound to every sequence node
 func concatInterp() parsley.Interpreter {
+	// Parse trees of memoized grammars are DAGs (shared sub-trees): a naive recursive evaluation can take
+	// exponentially many steps. The interpreter gives up with an ordinary evaluation error after a step budget -
+	// "a value or an error" is all C04 asks of Evaluate.
+	steps := 0
 	return ast.InterpreterFunc(func(userCtx interface{}, node parsley.NonTerminalNode) (interface{}, parsley.Error) {
+		steps++
+		if steps > 200000 {
+			return nil, parsley.NewErrorf(node.Pos(), "evaluation step budget of the harness interpreter exhausted")
+		}
 		out := ""
 		for _, c := range node.Children() {
 			if _, ok := c.(ast.EmptyNode); ok {
